@@ -604,6 +604,122 @@ theorem norm_whiten_commute_with_selection (k : NormKind) (mean : List α) (W ro
     intro i _
     simp [List.getElem?_map]
 
+/-! ### PCA whitening: the certificate is discharged from the contract of the SVD; the floor -/
+
+/-- the centred records `X - mean` handed to the factorisations -/
+def centredRows (p : Nat) (rows : List (List α)) : List (List α) :=
+  rows.map fun r => List.zipWith (fun x m => x - m) r ((cols p rows).map meanCol)
+
+/-- **covariance of PCA-whitened training data, for every dataset** (any targets / weights / names, which
+the fit does not read): if the parameter object's method is PCA and the external `svd(false, true)` of the
+centred records returns `(s, Vᵀ)` meeting the contract of an SVD — Gram identity
+`(X-μ)ᵀ(X-μ) = V diag(s²) Vᵀ`, orthonormal rows of `Vᵀ` — then `Whitener::fit` (as `whitenFitDataset`,
+the function the driver runs) succeeds and the sample covariance of the whitened training data is
+**diagonal with entries `s_a² / max(s_a, floor)²`**.  Needs two rows (`n - 1 > 0`). -/
+theorem pca_fit_cov {ε T W : Type} (hsq : SqrtContract α) (floor : α) (hf : 0 < floor) (ext : Factor α ε)
+    (q : WParams) (hq : q.method = .pca) (p : Nat) (ds : DS (List (List α)) T W)
+    (h2 : 2 ≤ ds.records.length) (hrows : ∀ r ∈ ds.records, r.length = p)
+    (s : List α) (vt : List (List α)) (hsvd : ext.svdVt (centredRows p ds.records) = .ok (s, vt))
+    (hs : s.length = vt.length) (hvt : ∀ w ∈ vt, w.length = p)
+    (hgram : ∀ i j, i < p → j < p →
+      (ds.records.map fun r => (r.getD i 0 - meanCol (col ds.records i)) *
+          (r.getD j 0 - meanCol (col ds.records j))).sum =
+        ∑ k ∈ Finset.range vt.length, wE vt k i * (s.getD k 0 * s.getD k 0) * wE vt k j)
+    (horth : ∀ a b, a < vt.length → b < vt.length →
+      ∑ i ∈ Finset.range p, wE vt a i * wE vt b i = if a = b then 1 else 0) :
+    ∃ mean Wm, whitenFitDataset floor ext q p ds = .ok (mean, Wm) ∧ Wm.length = vt.length ∧
+      ∀ a b, a < vt.length → b < vt.length →
+        covE (whitenTransform mean Wm ds.records) a b =
+          if a = b then (s.getD a 0 * s.getD a 0) / (maxS (s.getD a 0) floor * maxS (s.getD a 0) floor)
+          else 0 := by
+  have hn : ds.records ≠ [] := by
+    intro h; rw [h] at h2; simp at h2
+  have hd : whitenDecomp floor ds.records.length ext .pca
+      (ds.records.map fun r => List.zipWith (fun x m => x - m) r ((cols p ds.records).map meanCol)) =
+      .ok (pcaAssemble floor ds.records.length s vt) := by
+    have := hsvd
+    unfold centredRows at this
+    simp only [whitenDecomp, this]
+  refine ⟨(cols p ds.records).map meanCol, pcaAssemble floor ds.records.length s vt, ?_,
+    pcaAssemble_length floor _ s vt hs, ?_⟩
+  · unfold whitenFitDataset whitenFitParams
+    rw [hq]
+    exact whiten_fit_spec _ p ds.records _ hn hd
+  · intro a b ha hb
+    have hWl := pcaAssemble_length floor ds.records.length s vt hs
+    rw [covE_whitened p ds.records _ hn hrows (pcaAssemble_row_length floor _ s vt p hvt) a b
+      (hWl ▸ ha) (hWl ▸ hb)]
+    exact pca_WSWt hsq floor hf p ds.records s vt h2 hs hgram horth a b ha hb
+
+/-- **PCA whitening gives identity sample covariance on full-rank data** — "full rank" in the form the code
+decides it: no singular value of the centred data below the floor (`1e-8`).  The certificate `W cov Wᵀ = I`
+that `whiten_identity_cov` assumes is *derived* here from the SVD contract. -/
+theorem pca_whitens {ε T W : Type} (hsq : SqrtContract α) (floor : α) (hf : 0 < floor) (ext : Factor α ε)
+    (q : WParams) (hq : q.method = .pca) (p : Nat) (ds : DS (List (List α)) T W)
+    (h2 : 2 ≤ ds.records.length) (hrows : ∀ r ∈ ds.records, r.length = p)
+    (s : List α) (vt : List (List α)) (hsvd : ext.svdVt (centredRows p ds.records) = .ok (s, vt))
+    (hs : s.length = vt.length) (hvt : ∀ w ∈ vt, w.length = p)
+    (hgram : ∀ i j, i < p → j < p →
+      (ds.records.map fun r => (r.getD i 0 - meanCol (col ds.records i)) *
+          (r.getD j 0 - meanCol (col ds.records j))).sum =
+        ∑ k ∈ Finset.range vt.length, wE vt k i * (s.getD k 0 * s.getD k 0) * wE vt k j)
+    (horth : ∀ a b, a < vt.length → b < vt.length →
+      ∑ i ∈ Finset.range p, wE vt a i * wE vt b i = if a = b then 1 else 0)
+    (hfloor : ∀ a, a < vt.length → floor ≤ s.getD a 0) :
+    ∃ mean Wm, whitenFitDataset floor ext q p ds = .ok (mean, Wm) ∧ Wm.length = vt.length ∧
+      ∀ a b, a < vt.length → b < vt.length →
+        covE (whitenTransform mean Wm ds.records) a b = if a = b then 1 else 0 := by
+  obtain ⟨mean, Wm, h1, h2', h3⟩ := pca_fit_cov hsq floor hf ext q hq p ds h2 hrows s vt hsvd hs hvt hgram horth
+  refine ⟨mean, Wm, h1, h2', ?_⟩
+  intro a b ha hb
+  rw [h3 a b ha hb]
+  by_cases hab : a = b
+  · simp only [if_pos hab]
+    have hmax : maxS (s.getD a 0) floor = s.getD a 0 := by
+      unfold maxS; rw [if_neg (not_lt.mpr (hfloor a ha))]
+    have hpos : 0 < s.getD a 0 := lt_of_lt_of_le hf (hfloor a ha)
+    rw [hmax]; exact div_self (mul_pos hpos hpos).ne'
+  · simp only [if_neg hab]
+
+/-- **below the floor the data is not whitened** (open finding `C16-whiten-pca-tiny-scale`, for every dataset):
+a singular value `0 ≤ s_a < floor` is replaced by the floor, and the variance of the whitened component `a`
+is `(s_a / floor)² < 1`. -/
+theorem pca_floor_hit_not_white {ε T W : Type} (hsq : SqrtContract α) (floor : α) (hf : 0 < floor)
+    (ext : Factor α ε) (q : WParams) (hq : q.method = .pca) (p : Nat) (ds : DS (List (List α)) T W)
+    (h2 : 2 ≤ ds.records.length) (hrows : ∀ r ∈ ds.records, r.length = p)
+    (s : List α) (vt : List (List α)) (hsvd : ext.svdVt (centredRows p ds.records) = .ok (s, vt))
+    (hs : s.length = vt.length) (hvt : ∀ w ∈ vt, w.length = p)
+    (hgram : ∀ i j, i < p → j < p →
+      (ds.records.map fun r => (r.getD i 0 - meanCol (col ds.records i)) *
+          (r.getD j 0 - meanCol (col ds.records j))).sum =
+        ∑ k ∈ Finset.range vt.length, wE vt k i * (s.getD k 0 * s.getD k 0) * wE vt k j)
+    (horth : ∀ a b, a < vt.length → b < vt.length →
+      ∑ i ∈ Finset.range p, wE vt a i * wE vt b i = if a = b then 1 else 0)
+    (a : Nat) (ha : a < vt.length) (hnn : 0 ≤ s.getD a 0) (hlow : s.getD a 0 < floor) :
+    ∃ mean Wm, whitenFitDataset floor ext q p ds = .ok (mean, Wm) ∧
+      covE (whitenTransform mean Wm ds.records) a a = (s.getD a 0 * s.getD a 0) / (floor * floor) ∧
+      covE (whitenTransform mean Wm ds.records) a a < 1 := by
+  obtain ⟨mean, Wm, h1, _, h3⟩ := pca_fit_cov hsq floor hf ext q hq p ds h2 hrows s vt hsvd hs hvt hgram horth
+  have hmax : maxS (s.getD a 0) floor = floor := by unfold maxS; rw [if_pos hlow]
+  have hval := h3 a a ha ha
+  rw [if_pos rfl, hmax] at hval
+  refine ⟨mean, Wm, h1, hval, ?_⟩
+  rw [hval, div_lt_one (mul_pos hf hf)]
+  exact mul_lt_mul'' hlow hlow hnn hnn
+
+/-- **the fit reads the records only**: targets, sample weights and names of the training dataset do not
+influence the fitted scaler / whitener (`self.method.fit(x.records())`, `x.records()` / `x.nsamples()`) —
+stated for `fitDataset` / `whitenFitDataset`, the functions the driver answers the requests through
+(the harness fits on weighted datasets in a third of the cases). -/
+theorem fit_ignores_weights_targets {ε T W T' W' : Type} (eps floor : α) (p : Nat) (qp : Params α) (qw : WParams)
+    (ext : Factor α ε) (ds : DS (List (List α)) T W) (t' : T') (w' : W') (fn tn : List String) :
+    fitDataset eps p qp { records := ds.records, targets := t', weights := w', featureNames := fn, targetNames := tn } =
+      fitDataset eps p qp ds ∧
+    whitenFitDataset floor ext qw p
+        { records := ds.records, targets := t', weights := w', featureNames := fn, targetNames := tn } =
+      whitenFitDataset floor ext qw p ds :=
+  ⟨rfl, rfl⟩
+
 end errors
 
 /-! ### the guards are not vacuous, and what happens below them -/
